@@ -70,7 +70,9 @@ def run(ctx: Ctx):
                 "every operand order pos±delta / delta±pos / delta±delta / pos−pos / pos+pos / pos±=delta, Position and PosVel, "
                 "shapes (3,),(1,3),(n,3), position operand, second operand and the differences' ref_pos on independently drawn "
                 "ellipsoids (all 7x7 pairs first), same and different systems; non-trivial when two ellipsoids are involved. "
-                "Dataset.extend (append/prepend-empty, extend, mixed ellipsoids) on position/posvel fields of every ellipsoid.")
+                "Dataset.extend (append/prepend-empty, extend, mixed ellipsoids) on position/posvel fields of every ellipsoid. "
+                "Function-level API: trs2llh / llh2trs called with ndarray / list / Position / slice of a Position / PosVel.pos created on "
+                "ellipsoid A and explicit ellipsoid= B or none (all 7x8 pairs first); non-trivial when B is given and differs from A.")
     ctx.trusted += ["mpmath (tooling venv) as high-precision reference: the accuracy figures of the one-step algorithm are "
                     "MEASURED on the sampled points, not proved",
                     "floating-point error is measured (Float model vs NumPy: lat/lon <= 4 ulp or 1e-15 rad, height <= 4 ulp of "
@@ -85,6 +87,7 @@ def run(ctx: Ctx):
     check_flow(ctx)
     check_arith(ctx)
     check_external_sites(ctx)
+    check_wrappers(ctx)
     ctx.traces = ctx.evaluations
 
 
@@ -1033,6 +1036,87 @@ def delta_empty_from_one(ctx, kind, ell, shape):
         gviolate(ctx, f"ellipsoid-lost:delta-empty_from:{kind}", f"the reference position of {type(d).__name__}.empty_from(d) is on {getattr(getattr(r, 'ellipsoid', None), 'name', '?')}, d.ref_pos is on {ell}", case)
 
 
+WRAPPER_KINDS = ["ndarray", "list", "position", "position-slice", "posvel.pos"]
+
+
+def wrapper_one(ctx, rng, fname, kind, carried, explicit, shape):
+    """`transformation.trs2llh / llh2trs (arg, ellipsoid=explicit)` with the coordinates given as a plain array, a list or a
+    position object created on `carried`: the explicit argument decides (documented signature); without it the carried
+    ellipsoid, for plain data GRS80.  Oracle: the result is the conversion of the same numbers (plain ndarray) on the
+    deciding ellipsoid.  Correspondence: `resolveEllipsoid` over the rule regenerated from the wrapper's source"""
+    Position, PositionDelta, PosVel, PosVelDelta, PositionArray, PosVelArray, ellipsoid, T = _imp()
+    names = list(ellipsoid._ELLIPSOIDS)
+    f = getattr(T, fname)
+    system = "trs" if fname == "trs2llh" else "llh"
+    m = 1 if shape != "nxk" else 3
+    # mid / high latitudes and some height, so that every pair of different ellipsoids gives different numbers
+    llh_rows = [[rng.choice([-1, 1]) * rng.uniform(0.6, 1.45), rng.uniform(-3.0, 3.0), rng.uniform(-5e4, 5e5)] for _ in range(m)]
+    if system == "trs":
+        rows = np.asarray(T.llh2trs(np.array(llh_rows), ellipsoid.get("GRS80")), dtype=float).reshape(-1, 3).tolist()
+    else:
+        rows = llh_rows
+    plain = as_shape(rows, shape)
+    has_carried = kind not in ("ndarray", "list")
+    case = {"fn": "wrapper ellipsoid", "function": fname, "kind": kind, "carried": carried if has_carried else None, "explicit": explicit,
+            "shape": shape, "rows": rows}
+    ctx.case(case, nontrivial=has_carried and explicit is not None and explicit != carried)
+    ctx.count(f"wrapper:{fname}:{kind}:{'explicit' if explicit else 'no-explicit'}" + (":other-than-carried" if has_carried and explicit and explicit != carried else ""))
+    try:
+        EA = ellipsoid.get(carried)
+        if kind == "ndarray":
+            arg = plain.copy()
+        elif kind == "list":
+            arg = plain.tolist()
+        elif kind == "position":
+            arg = Position(plain.copy(), system, ellipsoid=EA)
+        elif kind == "position-slice":
+            big = Position(np.vstack([np.asarray(rows, dtype=float), np.asarray(rows, dtype=float)]), system, ellipsoid=EA)
+            arg = big[0:m] if shape != "1d" else big[0]
+        else:
+            if system != "trs":
+                return
+            pv = PosVel(np.hstack([np.asarray(rows, dtype=float), np.ones((len(rows), 3))]), "trs", ellipsoid=EA)
+            arg = pv.pos if shape != "1d" else pv.pos[0]
+        got = np.asarray(f(arg, ellipsoid.get(explicit)) if explicit else f(arg), dtype=float)
+    except Exception as e:  # noqa: BLE001
+        gviolate(ctx, f"raises:wrapper:{fname}:{type(e).__name__}", f"{fname}({kind} on {carried}, ellipsoid={explicit}) raised {type(e).__name__}: {e}", case)
+        return
+    decide = explicit if explicit else (carried if has_carried else "GRS80")
+    per = {n_: np.asarray(f(np.asarray(arg, dtype=float).copy(), ellipsoid.get(n_)), dtype=float) for n_ in names}
+    tol = 1e-9 if system == "llh" else None
+
+    def same(a_, b_):
+        if a_.shape != b_.shape:
+            return False
+        if system == "llh":   # result in metres
+            return bool(np.all(np.abs(a_ - b_) <= 1e-9))
+        return bool(np.all(np.abs(a_[..., :2] - b_[..., :2]) <= 1e-15) and np.all(np.abs(a_[..., 2] - b_[..., 2]) <= 1e-9))
+
+    on = [n_ for n_ in names if same(got, per[n_])]
+    # ---- oracle
+    if decide not in on:
+        gviolate(ctx, f"wrapper-ellipsoid:{fname}:{'explicit-ignored' if explicit else ('carried-ignored' if has_carried else 'default')}",
+                 f"{fname}(<{kind}" + (f" on {carried}" if has_carried else "") + f">, ellipsoid={explicit}) is the conversion on {on or '?'}, not on {decide} "
+                 f"(max difference to the {decide} result {float(np.max(np.abs(got - per[decide]))) if got.shape == per[decide].shape else float('nan'):.3e})", case)
+    # ---- correspondence
+    ans = ctx.driver.ask1(f"c05 resolve {fname} {explicit or '-'} {carried if has_carried else '-'}")
+    if ans not in on:
+        gdisagree(ctx, "resolveEllipsoid over the regenerated wrapper rule", case, ans, on)
+
+
+def check_wrappers(ctx: Ctx):
+    *_, ellipsoid, T = _imp()
+    rng = ctx.rng
+    names = list(ellipsoid._ELLIPSOIDS)
+    # all (carried, explicit) pairs incl. no explicit argument, both functions, position objects; then the plain kinds; then random
+    todo = [(fn_, "position", a_, b_, "nxk") for fn_ in ("trs2llh", "llh2trs") for a_ in names for b_ in names + [None]]
+    todo += [(fn_, k_, names[0], b_, sh) for fn_ in ("trs2llh", "llh2trs") for k_ in ("ndarray", "list") for b_ in names + [None] for sh in ("1d", "nxk")]
+    for _ in range(ctx.budget(150, 6000)):
+        todo.append((rng.choice(["trs2llh", "llh2trs"]), rng.choice(WRAPPER_KINDS), rng.choice(names), rng.choice(names + [None]), rng.choice(["1d", "1xk", "nxk"])))
+    for fn_, k_, a_, b_, sh in todo:
+        wrapper_one(ctx, rng, fn_, k_, a_, b_, sh)
+
+
 def as_shape_obj(obj, shape):
     """(n, k) position object → the requested shape (first row / first row as (1, k))"""
     if shape == "1d":
@@ -1062,6 +1146,8 @@ def replay(payload):
         run_sequence(ctx, rng, c["class"], c["ellipsoid"], ops, kinds, forced=c.get("variants"), nrows=c.get("rows"), first_row=(c.get("ndim") == 1 and c.get("rows", 1) > 1))
     elif fn == "arithmetic" and c.get("ellipsoid") in ellipsoid._ELLIPSOIDS:
         arith_one(ctx, rng, c["family"], c["form"], c["ellipsoid"], c["ref_ellipsoid"], c["ref_ellipsoid2"], c["shape"], c["same_system"])
+    elif fn == "wrapper ellipsoid" and c.get("carried", "GRS80") in list(ellipsoid._ELLIPSOIDS) + [None]:
+        wrapper_one(ctx, rng, c["function"], c["kind"], c.get("carried") or "GRS80", c.get("explicit"), c["shape"])
     elif fn == "delta empty_from" and c.get("ellipsoid") in ellipsoid._ELLIPSOIDS:
         delta_empty_from_one(ctx, c["kind"], c["ellipsoid"], c["shape"])
     elif fn in ("ellipsoid parameters", "ellipsoid table"):
